@@ -326,6 +326,7 @@ class Rules:
             text = self.sub('R12', r'\bnullptr\b', 'NULL', text)
         if 'R14' not in skip:
             text = self.r_decl_in_while(text)
+            text = self.r_decl_in_if(text)
         if 'R19' not in skip:
             text = self.r_forever(text)
         if 'R17' not in skip:
@@ -357,6 +358,50 @@ class Rules:
             text = text[:m.start()] + 'while (vp_one) { %s; if (!%s) break;' % (decl, m.group(2)) + text[k + 1:]
             n_f += 1
             pos = m.start() + 10
+        self._count('R14', n_f)
+        return text
+
+    def _stmt_end(self, text, k):
+        """index just after the statement starting at/after k (block or up to ';')"""
+        while text[k] in ' \t\n':
+            k += 1
+        if text[k] == '{':
+            return match_close(text, k) + 1
+        depth = 0
+        while k < len(text):
+            c = text[k]
+            if c in '"\'':
+                k = skip_literal(text, k)
+                continue
+            if c in '([{':
+                depth += 1
+            elif c in ')]}':
+                depth -= 1
+            elif c == ';' and depth == 0:
+                return k + 1
+            k += 1
+        raise ExtractionError("R14: statement end not found")
+
+    def r_decl_in_if(self, text):
+        # R14: if (T x = e) S [else S']  ->  { T x = e; if (x) S [else S'] }
+        n_f = 0
+        pos = 0
+        rx = re.compile(r'\bif\s*\(\s*((?:const\s+)?[A-Za-z_]\w*(?:\s*\*)?)\s+([A-Za-z_]\w*)\s*=(?!=)')
+        while True:
+            m = rx.search(text, pos)
+            if not m:
+                break
+            po = text.index('(', m.start())
+            pc = match_close(text, po, '(', ')')
+            decl = text[po + 1:pc].strip()
+            e = self._stmt_end(text, pc + 1)
+            me = re.compile(r'\s*else\b').match(text, e)
+            if me:
+                e = self._stmt_end(text, me.end())
+            new = '{ %s; if (%s)' % (decl, m.group(2)) + text[pc + 1:e] + ' }'
+            text = text[:m.start()] + new + text[e:]
+            n_f += 1
+            pos = m.start() + 5
         self._count('R14', n_f)
         return text
 
